@@ -1,4 +1,6 @@
 
+val negb : bool -> bool
+
 type nat =
 | O
 | S of nat
@@ -20,9 +22,22 @@ val compOpp : comparison -> comparison
 
 val add : nat -> nat -> nat
 
+val eqb : bool -> bool -> bool
+
+module Nat :
+ sig
+  val eqb : nat -> nat -> bool
+
+  val leb : nat -> nat -> bool
+
+  val ltb : nat -> nat -> bool
+ end
+
 val map : ('a1 -> 'a2) -> 'a1 list -> 'a2 list
 
 val flat_map : ('a1 -> 'a2 list) -> 'a1 list -> 'a2 list
+
+val filter : ('a1 -> bool) -> 'a1 list -> 'a1 list
 
 val combine : 'a1 list -> 'a2 list -> ('a1 * 'a2) list
 
@@ -54,6 +69,8 @@ module Pos :
 
   val mul : positive -> positive -> positive
 
+  val iter : ('a1 -> 'a1) -> 'a1 -> positive -> 'a1
+
   val compare_cont : comparison -> positive -> positive -> comparison
 
   val compare : positive -> positive -> comparison
@@ -65,6 +82,15 @@ module Pos :
   val to_nat : positive -> nat
 
   val of_succ_nat : nat -> positive
+ end
+
+module N :
+ sig
+  val compare : n -> n -> comparison
+
+  val eqb : n -> n -> bool
+
+  val ltb : n -> n -> bool
  end
 
 module Z :
@@ -85,6 +111,10 @@ module Z :
 
   val mul : z -> z -> z
 
+  val pow_pos : z -> positive -> z
+
+  val pow : z -> z -> z
+
   val compare : z -> z -> comparison
 
   val leb : z -> z -> bool
@@ -101,6 +131,8 @@ module Z :
 
   val to_nat : z -> nat
 
+  val to_N : z -> n
+
   val of_nat : nat -> z
 
   val of_N : n -> z
@@ -114,11 +146,50 @@ module Z :
 
 type str = n list
 
+val str_eqb : str -> str -> bool
+
+val str_ltb : str -> str -> bool
+
+type jperr =
+| ESyntax
+| EType
+| EIndex
+| EName
+| ELexer
+| ERecursion
+
+type pyexn =
+| XOverflow
+| XTypeError
+| XKeyError
+| XIndexError
+| XAttribute
+| XValue
+| XRecursion
+| XStopIteration
+| XAssertion
+
+type 'a result =
+| Ok of 'a
+| Err of jperr * z option
+| Crash of pyexn
+| OutOfFuel
+
+val bind : 'a1 result -> ('a1 -> 'a2 result) -> 'a2 result
+
+val jperr_code : jperr -> z
+
+val pyexn_code : pyexn -> z
+
+val flat_mapM : ('a1 -> 'a2 list result) -> 'a1 list -> 'a2 list result
+
 val zlen : 'a1 list -> z
 
 val znth_aux : 'a1 list -> z -> 'a1 option
 
 val znth : 'a1 list -> z -> 'a1 option
+
+val find_assoc : str -> (str * 'a1) list -> 'a1 option
 
 type num =
 | NInt of z
@@ -134,13 +205,63 @@ type json =
 | JArr of json list
 | JObj of (str * json) list
 
+type xval =
+| XFin of z * z
+| XInf of bool
+
+val num_xval : num -> xval
+
+val fin_compare : z -> z -> z -> z -> comparison
+
+val xval_compare : xval -> xval -> comparison
+
+val num_compare : num -> num -> comparison
+
+val num_eqb : num -> num -> bool
+
+val num_ltb : num -> num -> bool
+
+val num_is_zero : num -> bool
+
+type key =
+| KName of str
+| KIdx of z
+
+type node = key list * json
+
+val is_container : json -> bool
+
+val enum_from : z -> 'a1 list -> (z * 'a1) list
+
+val children : node -> node list
+
 type 'a dec = z list -> ('a * z list) option
 
 val dec_z : z dec
 
+val dec_bool : bool dec
+
+val dec_nat : nat dec
+
 val dec_opt : 'a1 dec -> 'a1 option dec
 
+val dec_n : 'a1 dec -> nat -> z list -> ('a1 list * z list) option
+
+val dec_list : 'a1 dec -> 'a1 list dec
+
+val dec_cp : n dec
+
+val dec_str : str dec
+
+val dec_pair : 'a1 dec -> 'a2 dec -> ('a1 * 'a2) dec
+
+val dec_json_f : nat -> z list -> (json * z list) option
+
+val dec_json : json dec
+
 val enc_bool : bool -> z list
+
+val enc_opt : ('a1 -> z list) -> 'a1 option -> z list
 
 val enc_list : ('a1 -> z list) -> 'a1 list -> z list
 
@@ -150,7 +271,94 @@ val enc_num : num -> z list
 
 val enc_json : json -> z list
 
+val enc_key : key -> z list
+
+val enc_node : node -> z list
+
+val enc_result : ('a1 -> z list) -> 'a1 result -> z list
+
 val bad_request : z list
+
+type ty3 =
+| TValue
+| TLogical
+| TNodes
+
+type cmpop =
+| OEq
+| ONe
+| OLt
+| OLe
+| OGt
+| OGe
+
+type sel =
+| SName of str
+| SIndex of z
+| SSlice of z option * z option * z option
+| SWild
+| SFilter of expr
+and expr =
+| ELit of json
+| ERel of seg list
+| EAbs of seg list
+| ECall of str * expr list
+| ENot of expr
+| EAnd of expr * expr
+| EOr of expr * expr
+| ECmp of cmpop * expr * expr
+and seg =
+| Child of sel list
+| Desc of sel list
+
+type query = seg list
+
+type pyobj =
+| PVal of json
+| PNodes of node list
+| PNothing
+
+type fimpl =
+| FLength
+| FCount
+| FValue
+| FMatch
+| FSearch
+| FConst of pyobj
+| FFirst
+
+type fdecl = { f_args : ty3 list; f_ret : ty3; f_impl : fimpl }
+
+type registry = (str * fdecl) list
+
+type envcfg = { min_idx : z; max_idx : z; max_depth : nat; reg : registry;
+                rx : (bool -> str -> str -> bool) }
+
+val dec_cmpop : cmpop dec
+
+val dec_ty3 : ty3 dec
+
+val dec_sel_f : nat -> z list -> (sel * z list) option
+
+val dec_expr_f : nat -> z list -> (expr * z list) option
+
+val dec_seg_f : nat -> z list -> (seg * z list) option
+
+val dec_query : query dec
+
+val dec_pyobj : pyobj dec
+
+val dec_fimpl : fimpl dec
+
+val dec_fdecl : (str * fdecl) dec
+
+val dec_registry : registry dec
+
+type rxrow = ((bool * str) * str) * bool
+
+val dec_rxrow : rxrow dec
+
+val rx_lookup : rxrow list -> bool -> str -> str -> bool
 
 val py_slice_indices : z -> z option -> z option -> z option -> (z * z) * z
 
@@ -183,8 +391,94 @@ val rfc_slice : z -> z option -> z option -> z option -> z list
 
 val rfc_index : z -> z -> z list
 
+val py_bool : json -> bool
+
+val m_is_truthy : pyobj -> bool
+
+val m_json_eq : json -> json -> bool
+
+val m_eq : pyobj -> pyobj -> bool
+
+val m_lt : pyobj -> pyobj -> bool
+
+val m_cmp : cmpop -> pyobj -> pyobj -> bool
+
+val mk_child : node -> key -> json -> node
+
+val m_visit : nat -> nat -> key list -> json -> node list result
+
+val m_py_len : pyobj -> z option
+
+val m_apply : envcfg -> fdecl -> pyobj list -> pyobj result
+
+val m_unpack : ty3 list -> pyobj list -> pyobj list result
+
+val m_unwrap1 : pyobj -> pyobj
+
+val m_seg : envcfg -> json -> seg -> node list -> node list result
+
+val m_segs : envcfg -> json -> seg list -> node list -> node list result
+
+val m_find : envcfg -> query -> json -> node list result
+
+type comparand =
+| Nothing
+| Val of json
+
+val json_eq : json -> json -> bool
+
+val c_eq : comparand -> comparand -> bool
+
+val c_lt : comparand -> comparand -> bool
+
+val cmp : cmpop -> comparand -> comparand -> bool
+
+val child_at : node -> key -> json -> node
+
+val descendants : key list -> json -> node list
+
+val select_idx : node -> json list -> z list -> node list
+
+type sval =
+| SV of comparand
+| SL of bool
+| SN of node list
+
+val as_val : sval -> comparand
+
+val as_bool : sval -> bool
+
+val as_nodes : sval -> node list
+
+val nonempty : 'a1 list -> bool
+
+val conv_nodes : ty3 -> node list -> sval
+
+val coerce : ty3 -> ty3 -> sval -> sval
+
+val sval_of_pyobj : ty3 -> pyobj -> sval
+
+val fn_sem : (bool -> str -> str -> bool) -> fdecl -> sval list -> sval
+
+val s_seg :
+  registry -> (bool -> str -> str -> bool) -> json -> seg -> node list ->
+  node list
+
+val s_segs :
+  registry -> (bool -> str -> str -> bool) -> json -> seg list -> node list
+  -> node list
+
+val sem :
+  registry -> (bool -> str -> str -> bool) -> query -> json -> node list
+
 val iota_json : z -> json list
 
 val enc_sel : (z * json) list -> z list
+
+val mk_cfg : nat -> registry -> rxrow list -> envcfg
+
+val op_find : z list -> z list
+
+val op_sem : z list -> z list
 
 val dispatch : z list -> z list
